@@ -264,6 +264,11 @@ fn weak_helper() {
     let owner = any_below(2) as usize;
     set_untraced(owner, 2);
     let target = any_below(2) as usize;
+    // a self edge keeps the target's count above zero after its neighbour's traced pointers are gone: the helper (released
+    // after the owner's traced slots) then meets a condemned object whose count is still positive
+    if any_below(2) == 1 {
+        set_slot(target, 1, target);
+    }
     if let (Some(h), Some(t)) = (handle(2), handle(target)) {
         *h.wslot() = Some(t.downgrade());
         w().wedge[2] = target as u8;
